@@ -46,6 +46,7 @@ func C05(r *core.Run) {
 	rule059(r)
 	rule0510(r)
 	rule016(r, "C05")
+	rule0214(r)
 }
 
 func rule051(r *core.Run) {
